@@ -4156,7 +4156,7 @@ namespace gch
 
       template <typename V = value_ty,
                 typename std::enable_if<
-                  std::is_nothrow_move_constructible<V>::value>::type * = nullptr>
+                  is_explicitly_nothrow_move_insertable<V>::value>::type * = nullptr>
       GCH_CPP20_CONSTEXPR
       ptr
       emplace_into_current (ptr pos, value_ty&& val)
